@@ -1,6 +1,7 @@
 package props
 
 import (
+	"encoding/json"
 	"fmt"
 	"math/big"
 	"testing"
@@ -131,7 +132,7 @@ func checkC13GoTyped(c c13GoCase) error {
 		buckets = map[refcose.Kind][]byte{refcose.KProtected: env.Prot.Raw(), refcose.KUnprotected: env.Unprot.Raw()}
 	}
 	for _, k := range []refcose.Kind{refcose.KProtected, refcose.KUnprotected} {
-		if raw, ok := buckets[k]; ok {
+		if raw, ok := buckets[k]; ok && !goTypedSkipRules {
 			if werr := refcose.WellFormed(k, raw); werr != nil {
 				return finding("emits-nonconforming/go-typed-value", "%s %s %s = %s: the encoder accepts this Go value and emits a header violating RFC 9052 3.1 (%v)\nemitted=%x", c.Ctx, c.Bucket, c.Label, c.Value, werr, out)
 			}
@@ -188,10 +189,35 @@ func hasWideInt(b []byte) bool {
 
 func init() { register("c13go", checkC13GoTyped) }
 
+func mustJSON(v any) []byte {
+	b, err := json.Marshal(v)
+	if err != nil {
+		panic(err)
+	}
+	return b
+}
+
 // TestC13_GoTypes: every label of the grid x every such Go value x bucket x
 // three contexts.
-func TestC13_GoTypes(t *testing.T) {
-	begin(t, "C13", "gotypes")
+func TestC13_GoTypes(t *testing.T) { runGoTypes(t, "C13", "c13go") }
+
+// TestC08_GoTypes: the same cells for C08's clause "every byte string returned by an encoder is accepted by the
+// corresponding decoder": whether the emitted header obeys section 3.1 is C13's business and not reported here.
+func TestC08_GoTypes(t *testing.T) { runGoTypes(t, "C08", "c08go") }
+
+func init() {
+	register("c08go", func(c c13GoCase) error {
+		goTypedSkipRules = true
+		defer func() { goTypedSkipRules = false }()
+		return checkC13GoTyped(c)
+	})
+}
+
+// goTypedSkipRules: judge only "own output accepted" (C08's clause), not the section 3.1 rules (C13's)
+var goTypedSkipRules bool
+
+func runGoTypes(t *testing.T, property, kind string) {
+	begin(t, property, "gotypes")
 	sh, nsh := gridShard()
 	n := 0
 	for _, ctx := range []string{"protected", "unprotected", "sign1"} {
@@ -211,7 +237,7 @@ func TestC13_GoTypes(t *testing.T) {
 					stats.Eval()
 					c := c13GoCase{Ctx: ctx, Bucket: bucket, Label: l, Value: gv.name}
 					stats.NTBytes([]byte(fmt.Sprintf("go-typed/%s/%s/%s/%s", ctx, bucket, l, gv.name)))
-					judge(t, "c13go", c, checkC13GoTyped)
+					judge(t, kind, c, func(c c13GoCase) error { return replayers[kind](mustJSON(c)) })
 				}
 			}
 		}
